@@ -5,6 +5,7 @@ import (
 	"math/rand"
 	"sort"
 	"strings"
+	"unicode/utf8"
 
 	"github.com/ajitpratap0/GoSQLX/pkg/linter"
 	"github.com/ajitpratap0/GoSQLX/pkg/linter/rules/keywords"
@@ -60,9 +61,9 @@ var c17Tricky = []struct{ text, kind string }{
 	{"/* select  from */", "block-comment"}, {"/* it's */", "block-comment"}, {"/* multi  \n\n\n \tselect  \n end */", "block-comment"}, {"/**/", "block-comment"}, {"/* \"open */", "block-comment"},
 }
 
-var c17LineComments = []string{"-- select  from", "-- it's", "--", "-- \"open", "-- /* where", "-- trailing note", "--select"}
+var c17LineComments = []string{"-- select  from", "-- it's", "--", "-- \"open", "-- /* where", "-- trailing note", "--select", "-- voil\u00e0", "-- \u00c5"}
 
-var c17Idents = []string{"a", "b1", "col_2", "tbl", "x", "users", "_tmp", "selectx", "fromage", "a1b2", "naïve"}
+var c17Idents = []string{"a", "b1", "col_2", "tbl", "x", "users", "_tmp", "selectx", "fromage", "a1b2", "naïve", "voilà", "\u00c5"}
 
 // c17Backslash is the one tricky lexeme with a backslash-escaped quote (feature "backslash-escaped-quote").
 const c17Backslash = "'q\\'select  from'"
@@ -254,6 +255,28 @@ func c17Build(r *rand.Rand, defects bool, avoid map[string]bool) c17Text {
 	return t
 }
 
+// c17ToCRLF returns t with every line break written as CR LF (also inside literals and comments); the
+// line-indexed records stay valid, span offsets move with the inserted bytes.
+func c17ToCRLF(t c17Text) c17Text {
+	shift := make([]int, len(t.S)+1)
+	n := 0
+	for i := 0; i < len(t.S); i++ {
+		shift[i] = n
+		if t.S[i] == '\n' {
+			n++
+		}
+	}
+	shift[len(t.S)] = n
+	out := t
+	out.S = strings.ReplaceAll(t.S, "\n", "\r\n")
+	out.spans = nil
+	for _, sp := range t.spans {
+		out.spans = append(out.spans, c17Span{sp.start + shift[sp.start], sp.end + shift[sp.end], sp.kind})
+	}
+	out.features = append(append([]string{}, t.features...), "crlf")
+	return out
+}
+
 // mask[i] is true where byte i lies inside a literal or comment.
 func (t c17Text) mask() []bool {
 	m := make([]bool, len(t.S)+1)
@@ -306,7 +329,7 @@ func c17Tokenize(s string) c17Toks {
 	for _, c := range tk.Comments {
 		lines := strings.Split(c.Text, "\n")
 		for i := range lines {
-			lines[i] = strings.TrimRight(lines[i], " \t")
+			lines[i] = strings.TrimRight(strings.TrimSuffix(lines[i], "\r"), " \t")
 		}
 		out.comments = append(out.comments, strings.Join(lines, "\n"))
 	}
@@ -410,6 +433,7 @@ func c17CheckText(a *ChildArgs, t c17Text, layer string) {
 				if insideAtEnd(i) {
 					continue
 				}
+				l = strings.TrimSuffix(l, "\r") // CR LF is the line terminator, not content
 				if strings.HasSuffix(l, " ") || strings.HasSuffix(l, "\t") {
 					must[i+1] = true
 				} else {
@@ -465,16 +489,12 @@ func c17CheckText(a *ChildArgs, t c17Text, layer string) {
 				if strings.HasPrefix(tr, "--") || strings.HasPrefix(tr, "/*") || insideAtStart(i) {
 					continue
 				}
-				ascii := true
-				for k := 0; k < len(l); k++ {
-					if l[k] >= 0x80 || l[k] == '\t' {
-						ascii = false
-					}
+				l = strings.TrimSuffix(l, "\r")
+				if strings.Contains(l, "\t") {
+					continue // the width of a tab is not defined by the rule
 				}
-				if !ascii {
-					continue
-				}
-				if len(l) > c17MaxLen {
+				// documented as a length in characters
+				if utf8.RuneCountInString(l) > c17MaxLen {
 					must[i+1] = true
 				} else {
 					mustNot[i+1] = true
@@ -697,6 +717,9 @@ func c17Child(a *ChildArgs) {
 				}
 				t.features = []string{tr.kind, fmt.Sprintf("tricky-%d", i)}
 				c17CheckText(a, t, fmt.Sprintf("catalogue/lexeme-%02d", i))
+				if (v == 1 || v == 2) && tr.text != c17Backslash { // (the backslash lexeme is a listed finding under its LF identity)
+					c17CheckText(a, c17ToCRLF(t), fmt.Sprintf("catalogue-crlf/lexeme-%02d", i))
+				}
 			}
 		}
 		for i, lc := range c17LineComments {
@@ -710,12 +733,14 @@ func c17Child(a *ChildArgs) {
 				}
 				t.features = []string{"line-comment", fmt.Sprintf("lc-%d", i)}
 				c17CheckText(a, t, fmt.Sprintf("catalogue/line-comment-%02d", i))
+				c17CheckText(a, c17ToCRLF(t), fmt.Sprintf("catalogue-crlf/line-comment-%02d", i))
 			}
 		}
 		// end-of-text shapes
 		for _, s := range []string{"SELECT a\n", "SELECT a", "SELECT a\n\n", "SELECT a\n\n\n", "SELECT a\n\nFROM t\n", "\nSELECT a\n", "\n\nSELECT a\n", "SELECT a \n", ""} {
 			t := c17Text{S: s, kwBad: map[int]bool{}, kwAny: map[int]bool{}, interior: map[int]bool{}, features: []string{"end-shape"}}
 			c17CheckText(a, t, "catalogue/end-shape")
+			c17CheckText(a, c17ToCRLF(t), "catalogue-crlf/end-shape")
 		}
 	case "random":
 		avoid := mon.AvoidFeatures()
@@ -724,6 +749,9 @@ func c17Child(a *ChildArgs) {
 			r := rand.New(rand.NewSource(base + int64(i)*15485863))
 			t := c17Build(r, i%5 != 0, avoid)
 			c17CheckText(a, t, "random")
+			if i%4 == 1 {
+				c17CheckText(a, c17ToCRLF(t), "random-crlf")
+			}
 			if i < 2 {
 				a.Rec.Sample("random", 2, map[string]interface{}{"text": t.S, "features": t.features})
 			}
